@@ -68,6 +68,11 @@ func registerTime(m *Machine) {
 		m.preemptOff = !a[0].(*Term).IsTrue()
 		return nil
 	}
+	// vfTimeHorizon(ms): timers with a longer (concrete) duration never fire in this scenario
+	I["vfTimeHorizon"] = func(m *Machine, fr *frame, a []Value, _ *ssa.CallCommon) Value {
+		m.horizonNs = int64(a[0].(*Term).C) * 1_000_000
+		return nil
+	}
 	I["time.Now"] = func(m *Machine, fr *frame, a []Value, _ *ssa.CallCommon) Value { return m.timeNow() }
 	I["time.Unix"] = func(m *Machine, fr *frame, a []Value, _ *ssa.CallCommon) Value {
 		sec, nsec := a[0].(*Term), a[1].(*Term)
